@@ -168,6 +168,63 @@ def _verdict_chunk(args):
                                 if got_c != ref_c:
                                     if len(out["violations"]) < 3:
                                         out["violations"].append(dict(case="report-regex", detail=f"regex {rx!r} ({side}) matches only {a!r} from the start; message {msg!r} reports {sorted(got_c)}, reference {sorted(ref_c)}", input=inp))
+            # a partial name '*text' stands for the modules whose names END with text (glob semantics, C08/C11): text occurring further left in other names selects nothing more
+            for _ in range(2):
+                a = rng.choice(cand)
+                tail = a.rsplit(".", 1)[1]
+                if [m for m in mods if m.endswith(tail)] != [a] or not any(tail in m and not m.endswith(tail) for m in mods):
+                    continue
+                others_ = [m for m in cand if unrelated([a, m])]
+                if not others_:
+                    continue
+                o = rng.choice(others_)
+                for side in ("subject", "object"):
+                    for verb in ("should", "should_not"):
+                        for imp in (True, False):
+                            S_p, O_p = ([("partial", "*" + tail)], [("name", o)]) if side == "subject" else ([("name", o)], [("partial", "*" + tail)])
+                            S_nm, O_nm = ([("name", a)], [("name", o)]) if side == "subject" else ([("name", o)], [("name", a)])
+                            kind, msg = outcome(make_rule(S_p, verb, imp, False, O_p), arch)
+                            want = doc_verdict(mods, imports, S_nm, verb, imp, False, O_nm)
+                            out["cases"] += 1
+                            inp = dict(tree=tree, imports=[list(p) for p in listed], partial="*" + tail, partial_side=side, matched=a, other=o, verb=verb, import_=imp, except_=False)
+                            if kind == "error" or (kind == "pass") != want:
+                                if len(out["violations"]) < 3:
+                                    out["violations"].append(dict(case="verdict-partial-name", detail=f"partial name {'*' + tail!r} ({side}) matches only {a!r}; real outcome {kind} ({msg}); "
+                                                                  f"the rule naming {a!r} is documented to {'pass' if want else 'fail'}", input=inp))
+                            elif check_report and kind == "fail":
+                                got_c, got_m, bad = parse_message(msg)
+                                ref_c, ref_m = reference_report(mods, imports, S_nm, verb, imp, False, O_nm)
+                                if got_c != ref_c or (side == "subject" and set(got_m) != set(ref_m)):
+                                    if len(out["violations"]) < 3:
+                                        out["violations"].append(dict(case="report-partial-name", detail=f"partial name {'*' + tail!r} ({side}) matches only {a!r}; message {msg!r} reports {sorted(got_c)} / subjects {sorted(got_m)}, "
+                                                                      f"reference {sorted(ref_c)} / {sorted(ref_m)}", input=inp))
+            # 'anything' with a subject AND one of its descendants listed: every import leaving all listed sub trees is a violation under every reading
+            # ('a rule per subject' / 'sub modules of a listed subject are dropped'); nothing that stays inside its own subject's sub tree is one
+            nested = [(a, d) for a in cand for d in cand if d.startswith(a + ".")]
+            for _ in range(2 if nested else 0):
+                a, d = rng.choice(nested)
+                S = [("name", a), ("name", d)]
+                extra = [m for m in cand if unrelated([a, m])]
+                if extra and rng.random() < 0.5:
+                    S.append(("name", rng.choice(extra)))
+                rng.shuffle(S)
+                for imp in (True, False):
+                    kind, msg = outcome(make_rule(S, "should_not", imp, False, None, anything=True), arch)
+                    I = set(imports) if imp else {(b, a_) for a_, b in imports}
+                    inside = set().union(*[desc_set(mods, s[1]) for s in S])
+                    certain = {(n, c) for (n, c) in I if n in inside and c not in inside}
+                    possible = {(n, c) for (n, c) in I if any(n in desc_set(mods, s[1]) and c not in desc_set(mods, s[1]) for s in S)}
+                    out["cases"] += 1
+                    inp = dict(tree=tree, imports=[list(p) for p in listed], subjects=S, verb="should_not", import_=imp, anything=True, nested=True)
+                    problem = None
+                    if kind == "error" or (certain and kind != "fail") or (not possible and kind != "pass"):
+                        problem = f"real outcome {kind} ({msg}); imports that leave every listed sub tree: {sorted(certain)}; imports that leave their own subject's sub tree: {sorted(possible)}"
+                    elif check_report and kind == "fail":
+                        got_c, _, bad = parse_message(msg)
+                        if not (certain <= got_c <= possible):
+                            problem = f"message {msg!r} reports {sorted(got_c)}; must contain {sorted(certain)} and stay within {sorted(possible)}"
+                    if problem and len(out["violations"]) < 3:
+                        out["violations"].append(dict(case="anything-nested-subjects", detail=problem, input=inp))
             # the two 'anything' aliases (single and batched unrelated subjects)
             for imp in (True, False):
                 # ('sub modules of X ... anything' also judges X's own imports: documentation ambiguous, not claimed here;
@@ -227,12 +284,54 @@ def _chunks(tier, seed, trees):
     return jobs
 
 
+def _e2e_case(args):
+    """Verdict and report on a SCANNED project: random directory tree, imports written in any equivalent spelling (plain / aliased / from / relative);
+    the reference judges the import relation the source text states."""
+    seed, check_report = args
+    from .projects import random_tree, add_imports, expected_modules, ROOT
+    from .common import temp_project, scan
+    rng = random.Random(seed)
+    files = random_tree(rng, depth=rng.randint(2, 3), with_init=1.0)
+    edges = add_imports(files, rng, rng.randint(3, 9), forms=True)
+    mods = sorted(expected_modules(files))
+    imports = tuple(sorted(edges))
+    out = []
+    with temp_project(files, ROOT) as root:
+        arch = scan(root)
+        for S, O in rule_space(mods, rng, 4, 2):
+            if not no_parent_self_import(imports, S + O):
+                continue
+            for verb, imp, exc in SHAPES:
+                kind, msg = outcome(make_rule(S, verb, imp, exc, O), arch)
+                want = doc_verdict(mods, imports, S, verb, imp, exc, O)
+                inp = dict(e2e=True, seed=seed, subjects=S, verb=verb, import_=imp, except_=exc, objects=O)
+                if kind == "error" or (kind == "pass") != want:
+                    out.append(dict(case="verdict-scanned-project", detail=f"scanned project (seed {seed}): real outcome {kind} ({msg}); the imports written in the files {list(imports)} "
+                                    f"make the rule {'pass' if want else 'fail'}", input=inp))
+                elif check_report and kind == "fail":
+                    got_c, got_m, bad = parse_message(msg)
+                    ref_c, ref_m = reference_report(mods, imports, S, verb, imp, exc, O)
+                    if bad or got_c != ref_c or got_m != ref_m:
+                        out.append(dict(case="report-scanned-project", detail=f"scanned project (seed {seed}): message {msg!r} reports {sorted(got_c)} / { {k: sorted(v) for k, v in got_m.items()} }, "
+                                        f"reference {sorted(ref_c)} / { {k: sorted(v) for k, v in ref_m.items()} }", input=inp))
+                if len(out) >= 2:
+                    return out
+    return out
+
+
 def bounded_verdicts(tier, seed, check_report=False, name="C01.verdict-vs-documented-semantics"):
     b = Bounded(name, "module trees flat/deep/prefix/deeper (4-11 modules); import relations: all with <=1 (quick) / <=2 (thorough) imports between unrelated "
                 "modules plus 40/400 random larger ones per tree; per graph 6 (quick) / 12 random subject/object choices (1-2 per side, name or "
-                "sub-module filters, pairwise unrelated) x 12 shapes, plus the two 'anything' aliases")
+                "sub-module filters, pairwise unrelated) x 12 shapes, plus the two 'anything' aliases (also with nested subjects), regex / partial-name filters that match one module, "
+                "and 60 (quick) / 3000 scanned random projects whose imports are written in every equivalent spelling")
     jobs = [(t, r, s, 6 if tier == "quick" else 12, check_report, 2) for (t, r, s) in _chunks(tier, seed, ["flat", "deep", "prefix", "nestedprefix"] + (["deeper"] if tier != "quick" else []))]
     _merge(b, pmap(_verdict_chunk, jobs))
+    # the same question asked of projects that are SCANNED from files (import statements in every equivalent spelling)
+    n_e2e = 60 if tier == "quick" else 3000
+    for res in pmap(_e2e_case, [(seed * 100003 + i, check_report) for i in range(n_e2e)]):
+        b.cases += 1
+        for v in res:
+            b.violation(v["case"], v["detail"], v["input"])
     return b.result()
 
 
@@ -242,10 +341,41 @@ def bounded_reports(tier, seed):
 
 def rerun_verdict(inp):
     """Replay of a recorded case: real outcome vs documented verdict (and report when the rule fails)."""
+    if inp.get("e2e"):
+        res = [v for v in _e2e_case((inp["seed"], True)) ]
+        return (not res), ("; ".join(v["detail"] for v in res) or "verdicts and reports on the scanned project agree with the imports written in its files")
     mods = TREES[inp["tree"]]
     listed = [tuple(p) for p in inp["imports"]]
     arch = build_arch(mods, listed)
     imports = sorted(arch_snapshot(arch)[1])
+    if inp.get("nested"):
+        S = [tuple(x) for x in inp["subjects"]]
+        kind, msg = outcome(make_rule(S, "should_not", inp["import_"], False, None, anything=True), arch)
+        I = set(imports) if inp["import_"] else {(b, a) for a, b in imports}
+        inside = set().union(*[desc_set(mods, s[1]) for s in S])
+        certain = {(n, c) for (n, c) in I if n in inside and c not in inside}
+        possible = {(n, c) for (n, c) in I if any(n in desc_set(mods, s[1]) and c not in desc_set(mods, s[1]) for s in S)}
+        ok = kind != "error" and not (certain and kind != "fail") and not (not possible and kind != "pass")
+        text = f"real outcome {kind} {msg!r}; certain violations {sorted(certain)}, possible {sorted(possible)}"
+        if ok and kind == "fail":
+            got_c, _, _ = parse_message(msg)
+            ok = certain <= got_c <= possible
+            text += f"; reported {sorted(got_c)}"
+        return ok, text
+    if inp.get("partial"):
+        a, o, side = inp["matched"], inp["other"], inp["partial_side"]
+        S_p, O_p = ([("partial", inp["partial"])], [("name", o)]) if side == "subject" else ([("name", o)], [("partial", inp["partial"])])
+        S_nm, O_nm = ([("name", a)], [("name", o)]) if side == "subject" else ([("name", o)], [("name", a)])
+        kind, msg = outcome(make_rule(S_p, inp["verb"], inp["import_"], False, O_p), arch)
+        want = doc_verdict(mods, imports, S_nm, inp["verb"], inp["import_"], False, O_nm)
+        ok = kind != "error" and (kind == "pass") == want
+        text = f"partial-name rule: real outcome {kind} {msg!r}; the rule naming {a!r} is documented to {'pass' if want else 'fail'}"
+        if ok and kind == "fail":
+            got_c, got_m, _ = parse_message(msg)
+            ref_c, ref_m = reference_report(mods, imports, S_nm, inp["verb"], inp["import_"], False, O_nm)
+            ok = got_c == ref_c and (side != "subject" or set(got_m) == set(ref_m))
+            text += f"; reported {sorted(got_c)} / {sorted(got_m)}, reference {sorted(ref_c)} / {sorted(ref_m)}"
+        return ok, text
     if inp.get("regex"):
         a, o, side = inp["matched"], inp["other"], inp["regex_side"]
         S_rx, O_rx = ([("regex", inp["regex"])], [("name", o)]) if side == "subject" else ([("name", o)], [("regex", inp["regex"])])
